@@ -115,7 +115,7 @@ class WriteEncoder:
 
     def writeString(self, tag, data, packed = False):
         tok = self.tokenDictionary.getIndex(tag)
-        if tok:
+        if tok and (tok[1] or tok[0] > 2):
             index, secondary = tok
             if not secondary:
                 self.writeToken(index, data)
